@@ -184,3 +184,37 @@ Proof.
   pose proof (stream_decode_total tks tk_init tk_step tk_fin chunks sz fuel Hsz Hf) as E.
   split; [exact E|]. apply armor_released. exact E.
 Qed.
+
+(* ------------------------------------------------------------------ the runner's number of Reads is enough *)
+Lemma toks_of_tk_run : forall l t, toks_of tks tk_step tk_fin t l = tk_run t l ++ [TkEOF].
+Proof.
+  induction l as [|c l IH]; intros t; [reflexivity|]. cbn [toks_of tk_run].
+  destruct (tk_step t c) as [t' ts]. rewrite IH, app_assoc. reflexivity.
+Qed.
+
+Lemma scan_len : forall doc, (List.length (fst (armor_scan doc)) <= 3 * List.length doc)%nat.
+Proof.
+  intros doc. rewrite scan_events. cbn [fst]. unfold a_events, events_of. rewrite chars_evs, <- sumlen_concat.
+  pose proof (dw_toks_words (toks_of tks tk_step tk_fin tk_init doc) false) as W.
+  rewrite toks_of_tk_run, text_bytes_app in W. cbn [text_bytes] in W.
+  pose proof (tk_run_bytes doc tk_init) as R. change (tk_acc tk_init) with O in R.
+  rewrite toks_of_tk_run. lia.
+Qed.
+
+Lemma fuel_for_enough : forall doc, (List.length (fst (armor_scan doc)) < fuel_for doc)%nat.
+Proof. intros doc. pose proof (scan_len doc). unfold fuel_for. lia. Qed.
+
+Lemma stream_decode_armor_run : forall doc chunks sz,
+  List.concat chunks = doc -> (forall j, (1 <= sz j)%nat) -> no_ipad (body_of doc) = true ->
+  let r := armor_stream_decode chunks sz (fuel_for doc) in
+  match armor_decode doc with
+  | DOk d => s_data r = d /\ s_end r = Some REOF
+  | DErr e => s_end r = Some (RErr e) /\ prefix (s_data r) (fst (b64_decode_seq (body_of doc)))
+  end.
+Proof. intros doc chunks sz Hc Hsz Hp. apply stream_decode_armor; try assumption. apply fuel_for_enough. Qed.
+
+Lemma armor_total_run : forall doc chunks sz,
+  List.concat chunks = doc -> (forall j, (1 <= sz j)%nat) ->
+  s_end (armor_stream_decode chunks sz (fuel_for doc)) <> None /\
+  sp_stuck (s_prod (armor_stream_decode chunks sz (fuel_for doc))) = false.
+Proof. intros doc chunks sz Hc Hsz. apply (armor_total doc); try assumption. apply fuel_for_enough. Qed.
